@@ -8,9 +8,11 @@ import Tuc.Lemmas.Split
 
 Target (DESIGN.md §C01): `readAndCutStr opt input = specRun (cfgOf opt) input` for every literal
 delimiter `d ≠ []`, every option set of the lattice and every well-formed bounds list.
-What is proved so far is listed below; the refinement of the splitter (`fields_reconstruct`,
-`slice_eq_interleave`) is the part still open, so the end-to-end statement is not yet a theorem
-and the direct oracle of the check (implementation against `specRun`, executed) carries it.
+What is proved so far is listed below.  The refinement of the splitter (`fields_are_contents`,
+`fields_wellformed`, `slice_eq_interleave`, `fields_reconstruct`, and the `-g` / `-p` variants) is
+in `Tuc.Lemmas.Split`; `plain_bound_output` / `greedy_bound_output` below carry it to one
+iteration of the output loop.  The end-to-end statement is not yet assembled into one theorem, so
+the direct oracle of the check (implementation against `specRun`, executed) still carries it.
 -/
 namespace Tuc
 open Tuc.Spec
@@ -108,6 +110,32 @@ theorem plain_bound_output (line d : Bytes) (opt : Opt) (b : UserBounds) (s e : 
   unfold outputBof
   simp only [hb, List.getElem?_eq_getElem hs, List.getElem?_eq_getElem he]
   rw [if_pos ⟨h1, h2⟩, h3]
+  simp only [maybeReplaceDelimiter, hty, hrep, writeMaybeAsJson, hjson, Option.getD_none]
+  cases opt.join <;> cases b.isLast <;> simp
+
+/-- **The greedy splitter (`-g`), one bound.**  Same statement in the specification's words:
+    the engine writes `pieceText` of the greedy tokenisation, the separators being the runs of
+    the delimiter actually found in the record. -/
+theorem greedy_bound_output (line d : Bytes) (opt : Opt) (b : UserBounds) (s e : Nat)
+    (hline : line ≠ []) (hd : d ≠ [])
+    (hjson : opt.json = false) (hrep : opt.replaceDelimiter = none)
+    (hty : opt.boundsType = .fields) (hz : b.l ≠ .some 0)
+    (hb : b.tryIntoRange (fillWithFieldsLocationsGreedy [] line d).length = some (s, e)) :
+    outputBof line (fillWithFieldsLocationsGreedy [] line d)
+        (fillWithFieldsLocationsGreedy [] line d).length opt false (.bound b) =
+      (Run.ok (pieceText (repeatBytes d) (tokenize d true false line) (s + 1) e)).seq
+        (if opt.join = true ∧ b.isLast = false then Run.ok opt.delimiter else Run.empty) := by
+  have hw := greedy_fields_tiling d line hd hline
+  obtain ⟨hse, hen⟩ := tryIntoRange_bounds b _ s e hz hb
+  have hs : s < (fillWithFieldsLocationsGreedy [] line d).length := by omega
+  have he : e - 1 < (fillWithFieldsLocationsGreedy [] line d).length := by omega
+  have h12 := hw.start_le_stop s (e - 1) (by omega) he
+  have h3 := greedy_slice_eq_pieceText d line hd hline s (e - 1) (by omega) he
+  have e1 : e - 1 + 1 = e := by omega
+  rw [e1] at h3
+  unfold outputBof
+  simp only [hb, List.getElem?_eq_getElem hs, List.getElem?_eq_getElem he]
+  rw [if_pos h12, h3]
   simp only [maybeReplaceDelimiter, hty, hrep, writeMaybeAsJson, hjson, Option.getD_none]
   cases opt.join <;> cases b.isLast <;> simp
 
